@@ -9,6 +9,7 @@ import (
 	"os"
 	"path/filepath"
 	"runtime/debug"
+	"runtime/pprof"
 	"sort"
 	"strconv"
 	"strings"
@@ -72,6 +73,12 @@ func usage() {
 }
 
 func cmdCheck(args []string) int {
+	if pf := os.Getenv("BMCVERIF_CPUPROFILE"); pf != "" {
+		if f, err := os.Create(pf); err == nil {
+			pprof.StartCPUProfile(f)
+			defer pprof.StopCPUProfile()
+		}
+	}
 	fs := flag.NewFlagSet("check", flag.ExitOnError)
 	prop := fs.String("p", "", "property id")
 	tier := fs.String("tier", "", "quick|thorough")
